@@ -175,4 +175,23 @@ theorem source_queue_drains (bytesOf : Nat → Bytes) (hne : ∀ sid, bytesOf si
     (source_cfg true).2.2.2.2.2 (source_cfg true).1 hne s hr hp (fun _ => hlk)
   exact ⟨acts, s', h1, h2, h3, h5⟩
 
+/-! ### Connect()'s loop over the server list, interpreted -/
+
+/-- the transcribed loop — the dial stands in `for _, host := range this.Servers`, gets `Timeout` for every
+    server, goes on to the next server on failure and returns at the first success — is the model's
+    `connectList`, for every Timeout, every server list and every starting time.  (A deadline computed
+    once before the loop is transcribed as `.shared`: this obligation stops checking, see
+    `C06.finding_sharedBudget`.) -/
+theorem source_dial_is_model (T : Nat) (servers : List Srv) (now : Nat) :
+    interpDial Gen.C06.dialLoop T servers now = connectList T servers now 0 :=
+  interp_is_model _ (by decide) (by decide) (by decide) (by decide) T servers now
+
+/-- … so the client of this source reaches a live collector behind any number of dead ones -/
+theorem source_reaches_live_behind_dead (T : Nat) (pre post : List Srv) (s : Srv) (now : Nat)
+    (hpre : ∀ x ∈ pre, x.live T = false) (hs : s.live T = true) :
+    (interpDial Gen.C06.dialLoop T (pre ++ s :: post) now).1 = some pre.length := by
+  rw [source_dial_is_model]; exact C06.live_behind_dead_is_reached T pre post s now hpre hs
+
+example : interpDial Gen.C06.dialLoop 400 [.gone, .refused, .up 0, .up 0] 0 = (some 2, 400) := by decide
+
 end C06Gen
